@@ -1408,7 +1408,8 @@ class Rule(metaclass=LogicalType):
 
         elif type_ == Literal:
             # special for literal type
-            constraints = constraints or {}
+            # (a dict of its own: the one given belongs to the caller's Field, which other declarations may share)
+            constraints = dict(constraints or {})
             if len(args_) == 1:
                 constraints["const"] = args_[0]
             elif len(args_) > 1:
